@@ -236,6 +236,7 @@ func init() {
 			fr.i.mapOrderSym = a[0].(bool)
 			return nil
 		},
+		"verif/symx.SoftOpaque": func(fr *frame, a []value) value { fr.i.softOpaque = a[0].(bool); return nil },
 		"verif/symx.SoftFuel": func(fr *frame, a []value) value {
 			fr.i.softFuelAt = fr.i.fuel - asInt64(a[0])
 			return nil
@@ -274,9 +275,11 @@ func init() {
 		"bytes.Compare":                        extCompare,
 		"strings.Compare":                      extCompare,
 
-		"math.Floor": func(fr *frame, a []value) value { return mathFn(a[0], math.Floor, "Floor") },
-		"math.Ceil":  func(fr *frame, a []value) value { return mathFn(a[0], math.Ceil, "Ceil") },
-		"math.Trunc": func(fr *frame, a []value) value { return mathFn(a[0], math.Trunc, "Trunc") },
+		"math.Floor":       func(fr *frame, a []value) value { return roundFn(fr, a[0], 1, math.Floor) },
+		"math.Ceil":        func(fr *frame, a []value) value { return roundFn(fr, a[0], 2, math.Ceil) },
+		"math.Trunc":       func(fr *frame, a []value) value { return roundFn(fr, a[0], 0, math.Trunc) },
+		"math.RoundToEven": func(fr *frame, a []value) value { return roundFn(fr, a[0], 3, math.RoundToEven) },
+		"math.Round":       func(fr *frame, a []value) value { return roundFn(fr, a[0], 4, math.Round) },
 		"math.Pow": func(fr *frame, a []value) value {
 			x, ok1 := a[0].(float64)
 			y, ok2 := a[1].(float64)
@@ -352,6 +355,16 @@ func init() {
 	}
 	initSyncExternals()
 	initFmtExternals()
+}
+
+func roundFn(fr *frame, x value, mode int, f func(float64) float64) value {
+	if v, ok := x.(float64); ok {
+		return f(v)
+	}
+	if s, ok := x.(*Sym); ok && s.K == types.Float64 {
+		return mkSym(fr.i.ctx.FRound(mode, s.T), types.Float64)
+	}
+	panic(abort{kind: "unsupported", msg: "math rounding on unexpected operand"})
 }
 
 func mathFn(x value, f func(float64) float64, name string) value {
